@@ -38,7 +38,9 @@ From Batchie Require Import Model.Orchestrate Proofs.C19Base Proofs.C19Canon Pro
   Generated.SrcOrchInit Proofs.C19Source_ValidateInitial
   Generated.SrcOrchArgs Proofs.C19Source_GetArgs Proofs.C19Source_GetArgsMain
   Generated.SrcOrchPaths Proofs.C19Source_Paths Generated.SrcOrchCmdClosed Proofs.C19Source_CmdClosed
-  Proofs.C19Progress Proofs.C19Torn Proofs.C19Async.
+  Proofs.C19Progress Proofs.C19Torn Proofs.C19Async
+  Model.NfFiles Generated.SrcNfOutputs Proofs.C19Nf.
+From Batchie Require Model.Cli Generated.SrcParser_select_next_plate.
 Import ListNotations.
 
 (* For EVERY crash schedule (any number of crashes, at any event of any call), batch size, number of
@@ -955,3 +957,52 @@ Theorem C19_marker_before_advanced_strands :
   forall m, map fst (completed (fst (script_run Retro true 2 4 [] (stuck_sched ++ repeat full m)))) = [(0, 0); (0, 1)]%Z.
 Proof. exact marker_before_advanced_strands. Qed.
 Print Assumptions C19_marker_before_advanced_strands.
+
+(* ---- the nextflow side, read from /repo/nextflow on every run (harness/nf_reader.py -> Generated/SrcNfOutputs.v) ----
+   nf_outputs      (process, pattern of its output: block under ${prefix}/, file name its script block writes)
+   script_globs    what the translated helpers glob for, taken from the primitives of their configurations
+   kind_pattern / kind_process / kind_levels (Model/NfFiles.v): the file name, process and depth the model's kinds denote *)
+
+(* every file kind of the model is published by the process the model attributes it to: the module's output pattern matches the
+   name its script block writes, and the pattern the script globs for matches that name too *)
+Theorem C19_nf_outputs_are_what_the_script_globs : forall k,
+  exists pat written, In (kind_process k, pat, written) nf_outputs /\
+                      NfFiles.glob_match pat written = true /\ NfFiles.glob_match (kind_pattern k) written = true.
+Proof. exact nf_outputs_are_what_the_script_globs. Qed.
+Print Assumptions C19_nf_outputs_are_what_the_script_globs.
+
+(* a published name is matched by the glob of ONE kind only *)
+Theorem C19_nf_written_names_unambiguous : forall proc pat written k1 k2,
+  In (proc, pat, written) nf_outputs ->
+  NfFiles.glob_match (kind_pattern k1) written = true -> NfFiles.glob_match (kind_pattern k2) written = true -> k1 = k2.
+Proof. exact nf_written_names_unambiguous. Qed.
+Print Assumptions C19_nf_written_names_unambiguous.
+
+(* the globs of the translated helpers are exactly the model's patterns, at the model's directory depth, and every kind is globbed for *)
+Theorem C19_script_globs_are_kind_patterns :
+  (forall pat code lv, In (pat, code, lv) script_globs ->
+     exists k, kind_of_code code = Some k /\ pat = kind_pattern k /\ lv = kind_levels k) /\
+  (forall k, exists code, kind_of_code code = Some k /\ In (kind_pattern k, code, kind_levels k) script_globs).
+Proof. split; [exact script_globs_are_kind_patterns|exact script_globs_cover_every_kind]. Qed.
+Print Assumptions C19_script_globs_are_kind_patterns.
+
+(* every configuration that sets publishDir sets it to the --outdir the script passes; every module writes one level below it *)
+Theorem C19_nf_publish_dir_is_outdir :
+  nf_publish_dirs <> [] /\ Forall (fun c => snd c = publish_setting) nf_publish_dirs /\ nf_prefix = publish_prefix.
+Proof. exact nf_publish_dir_is_outdir. Qed.
+Print Assumptions C19_nf_publish_dir_is_outdir.
+
+(* how --excludes=a,b reaches the policy: split on the separator the script joins with; handed on as the tuple element the
+   sub-workflow picks for SELECT_NEXT_PLATE's `excludes` input; passed blank-separated after a flag that select_next_plate's own
+   parser (Generated/SrcParser_select_next_plate.v) declares with nargs='+' type=int, dest batch_plate_id *)
+Theorem C19_nf_excludes_chain :
+  nf_excludes_tokenize = excludes_sep /\
+  (exists pos, index_of nf_excludes_index nf_select_picks 0 = Some pos /\ nth_str pos nf_select_inputs = S_excludes) /\
+  nf_excludes_join = S_blank /\
+  match flag_option (Cli.str_of_string nf_excludes_flag) SrcParser_select_next_plate.src_parser_select_next_plate with
+  | Some o => Cli.o_type o = Some Cli.TInt /\ Cli.o_nargs o = Some Cli.NPlus /\ Cli.o_action o = Cli.ActStore /\
+              Cli.opt_dest o = Cli.str_of_string S_batch_plate_id
+  | None => False
+  end.
+Proof. exact nf_excludes_chain. Qed.
+Print Assumptions C19_nf_excludes_chain.
